@@ -254,10 +254,13 @@ def _frozen_mig_unit(nd, fz, mi, mj, incident):
             Integration._compute_dt = stub_dt
         else:
             K.concrete_modules()
-        for variant in ('const', 'func'):
+        for variant in ('const', 'func', 'mfunc'):
             kw2 = dict(kw)
             if variant == 'func':
                 kw2['nu1'] = lambda t: 1
+            if variant == 'mfunc':
+                # a migration rate that is a function of time, zero at the start and positive later
+                kw2['m%d%d' % (mi, mj)] = (lambda t: mval * t)
             try:
                 fn(phi.copy(), xx, T, **kw2)
                 raised = False
@@ -266,7 +269,7 @@ def _frozen_mig_unit(nd, fz, mi, mj, incident):
             env.holds('%s: raises ValueError == incident' % variant, raised == incident)
         Integration._compute_dt = saved_dt
     return H.Unit('frozen%d-m%d%d-%dpop-%s' % (fz, mi, mj, nd, 'rejected' if incident else 'accepted'), body,
-                  params=dict(pops=nd, frozen=fz, m=[mi, mj], incident=incident), min_obligations=2, timeout_s=600)
+                  params=dict(pops=nd, frozen=fz, m=[mi, mj], incident=incident), min_obligations=3, timeout_s=600)
 
 
 # ------------------------------------------------------------------------------------------ end to end (inline)
